@@ -113,7 +113,8 @@ OnResp(rs, e) ==
       ELSE E({"C02"}, FALSE, [base EXCEPT !.cur = cur], "C02/Resp/unattributed-response")
    ELSE
       LET i == e.i IN
-      E({"C02"}, i = k /\ i <= rs.called /\ i <= NReq(rs),
+      \* (also C04: a response that never reaches the socket, or reaches it twice, breaks exactly-once delivery)
+      E({"C02"} \cup (IF rs.anyCut THEN {} ELSE {"C04"}), i = k /\ i <= rs.called /\ i <= NReq(rs),
         LET q == rs.gt[i]  p == rs.pf[i]
             bodiless == Bodiless(q, e.status)
             closing == AnnouncesClose(e)
@@ -247,8 +248,13 @@ OnDone(rs, e) ==
   E({"C06"}, ~ShutLate(rs, e.t),
   E({"C06"}, ~(Idle(rs) /\ rs.cfg.ka_ms > 0 /\ e.res = "ok" /\ e.t - rs.tAct + LAG < rs.cfg.ka_ms),
   E({"C04"}, e.res = "ok" \/ ErrEndJustified(rs, e),
-   E({"C02"}, rs.called <= rs.answered + (IF rs.cur.k # 0 THEN 1 ELSE 0) \/ Faulted(rs) \/ e.res = "err", s,
-     IF ChunkDrop(rs) THEN "C02/Done/unanswered-because-dropped-on-malformed-chunk" ELSE "C02/Done/dispatched-request-never-answered"),
+   LET allAnswered == rs.called <= rs.answered + (IF rs.cur.k # 0 THEN 1 ELSE 0) \/ Faulted(rs) \/ e.res = "err"
+       sig == IF ChunkDrop(rs) THEN "C02/Done/unanswered-because-dropped-on-malformed-chunk" ELSE "C02/Done/dispatched-request-never-answered" IN
+   E({"C02"}, allAnswered,
+    \* C04 (exactly-once delivery) reads the same observation, unless the response stream could not be attributed any more
+    \* (octets after a bodiless response) or a closing response had already ended it
+    E({"C04"}, allAnswered \/ rs.anyCut \/ rs.final, s, sig),
+    sig),
    "C04/Done/error-end-without-cause/" \o e.kind),
    "C06/KeepAlive/closed-before-timeout"),
    "C06/Shutdown/outlives-disconnect-timeout")
@@ -282,7 +288,7 @@ RefStep0(rs, e) ==
     [] e.ev = "Resp"     -> OnResp(rs, e)
     [] e.ev = "RespEnd"  -> OnRespEnd(rs, e)
     [] e.ev = "RespCut"  -> [OnRespCut(rs, e) EXCEPT !.anyCut = TRUE]
-    [] e.ev = "Junk"     -> E({"C02"}, FALSE, rs, JunkSig(rs))
+    [] e.ev = "Junk"     -> E({"C02"}, FALSE, [rs EXCEPT !.anyCut = TRUE], JunkSig(rs))
     [] e.ev = "Stall"    -> E({"C04"}, FALSE, rs, "C04/Stall/progress-on-spurious-poll")
     [] e.ev = "Spin"     -> rs      \* busy self-wake loop while blocked: reported in the evidence, not a clause of C01-C06
     [] e.ev = "Panic"    -> Rej("C19/Panic", "")
